@@ -397,6 +397,12 @@ class Source:
             VCLOCK.advance(slow[k % len(slow)])
         return k
 
+    def _restart(self):
+        """A re-iterable container is iterated once more, from its first item"""
+        self.cursor = 0
+        self.exhausted = False
+        self.world.log.append(("restart", self.name))
+
     def _resolve(self, k):
         world = self.world
         if world.fault_party == self.name and world.fault_index == k:
@@ -508,6 +514,8 @@ class GetItemSeq:
 
     def __getitem__(self, index):
         src = self.src
+        if index == 0 and src.cursor > 0:
+            src._restart()  # a container can be iterated again: a new iteration starts at its first item
         k = src._begin()
         got = src._resolve(k)
         if got is _EOS:
@@ -539,6 +547,8 @@ class SetAbc(collections.abc.Set):
 
     def __iter__(self):
         _iter_fault(self.src)
+        if self.src.cursor > 0:
+            self.src._restart()
         return self._iterate()
 
     def _iterate(self):
